@@ -1,0 +1,6 @@
+//go:build !verif
+// +build !verif
+
+package streams
+
+func verifPoint(point string, s *IDGenerator, a, b uint64) {}
